@@ -170,7 +170,7 @@ def promote(ta, tb, op):
 
 def c08a(code: int) -> str:
     """
-    pre: LO <= code < HI and 0 <= code < 80
+    pre: LO <= code < HI and 0 <= code < 200
     post: (_ == '') != TWIN
     """
     code = pick(code, max(LO, 0), min(HI, NTABLE))
@@ -255,7 +255,7 @@ def derive(spec):
 
 def c08c(code: int) -> str:
     """
-    pre: LO <= code < HI and 0 <= code < 40
+    pre: LO <= code < HI and 0 <= code < 100
     post: (_ == '') != TWIN
     """
     code = pick(code, max(LO, 0), min(HI, NSTREAM))
